@@ -1950,6 +1950,13 @@ class Interp:
             if callee is not None and self.inlinable(callee, fr):
                 return self.inline(ctx, callee, con)
             return self.opaque(ctx, con, local=True)
+        # 2b. a trait method of the crate called through `dyn Trait` (no candidate resolved): the trait-level contract holds
+        # for every implementation (each is checked against it on its own side)
+        if c.get("local") and c.get("trait") and c.get("method"):
+            con = self.contracts.for_call(self, c, [])
+            if con is not None:
+                con.check_requires(ctx)
+                return self.opaque(ctx, con, local=True)
         # 3. unknown external callee
         if path and not c.get("local"):
             cls = self.models.classify(path)
